@@ -97,6 +97,24 @@ MARKERS = [b"python_version", b"python_full_version", b"os_name", b"sys_platform
            b"(", b")", b" ", b"'", b'"']
 
 
+MVARS = [b"python_version", b"python_full_version", b"os_name", b"sys_platform", b"platform_machine", b"platform_release",
+         b"platform_system", b"platform_version", b"platform_python_implementation", b"implementation_name", b"implementation_version", b"extra"]
+MLITS = [b"'3.8'", b'"2.7"', b"'1.0'", b'"1.2.3"', b"'nt'", b'"linux"', b"'x'", b'"abc"', b"'1.0.*'", b'""', b"'3'", b"'cpython'"]
+MOPS = [b"==", b"!=", b"<", b"<=", b">", b">=", b"~=", b"===", b" in ", b" not in "]
+
+
+def marker_expr(rng, depth=0):
+    """grammar-derived PEP 508 marker: every operator with variables and literals on either side"""
+    r = rng.random()
+    if depth < 3 and r < 0.25:
+        return marker_expr(rng, depth + 1) + rng.choice([b" and ", b" or "]) + marker_expr(rng, depth + 1)
+    if depth < 3 and r < 0.35:
+        return b"(" + marker_expr(rng, depth + 1) + b")"
+    side = lambda: rng.choice(MVARS) if rng.random() < 0.5 else rng.choice(MLITS)
+    sp = rng.choice([b"", b" "])
+    return side() + sp + rng.choice(MOPS) + sp + side()
+
+
 def resolver_universe(rng, sysr):
     sysi = {0: 4, 1: 3, 2: 6}[sysr]
     names = [b"a", b"b", b"c", b"@s/d"][:rng.randrange(2, 5)]
@@ -121,7 +139,7 @@ def resolver_universe(rng, sysr):
                 elif q < 0.4:
                     t.append([8, rng.choice([b"alias", b"", b"@x/y"])])
                 elif q < 0.55 and sysr == 2:
-                    t.append([10, b"".join(rng.choice(MARKERS) for _ in range(rng.randrange(1, 8)))])
+                    t.append([10, marker_expr(rng) if rng.random() < 0.7 else b"".join(rng.choice(MARKERS) for _ in range(rng.randrange(1, 8)))])
                 elif q < 0.6 and sysr == 1:
                     t.append([9, rng.choice([b"*:*", b"g:a", b"|", b"a", b":"])])
                 elif q < 0.65:
@@ -132,6 +150,10 @@ def resolver_universe(rng, sysr):
             vs.append([ver, attrs, deps])
         pk.append([n] + vs)
     root = pk[0]
+    if sysr == 2:
+        # the root's own requirements are always looked at: give it guarded ones
+        for _ in range(rng.randrange(1, 4)):
+            root[1][2].append([[[10, marker_expr(rng)]], rng.choice(names), rng.choice([b">=1.0", b"", b"==1.*", b"<2"])])
     return [pk, root[0], root[1][0]]
 
 
@@ -153,6 +175,17 @@ def cases(ctx):
             out.append(["difference", sysi, versions.gen(rng, sysi), versions.malformed(rng, sysi)])
             out.append(["match", sysi, constraint_text(rng, sysi), versions.gen(rng, sysi) if rng.random() < 0.7 else versions.malformed(rng, sysi)])
             out.append(["setops", sysi, constraint_text(rng, sysi), constraint_text(rng, sysi)])
+    for sysi in range(9):
+        cs = versions.cores(rng, sysi)
+        for _ in range(n):
+            a = versions.with_core(rng, sysi, cs)
+            vs = versions.variants(rng, sysi, a)
+            b = rng.choice(vs) if vs and rng.random() < 0.5 else versions.with_core(rng, sysi, cs)
+            if rng.random() < 0.5:
+                a, b = b, a
+            out.append(["syscompare", sysi, a, b])
+            if rng.random() < 0.3:
+                out.append(["difference", sysi, a, b])
     for _ in range(n * 2):
         s = b"".join(rng.choice(PEP508) for _ in range(rng.randrange(0, 9)))
         out.append(["parsedep", s])
@@ -186,6 +219,8 @@ def cases(ctx):
         sysr = rng.randrange(3)
         u = resolver_universe(rng, sysr)
         out.append(["resolve", sysr, u[0], u[1], u[2]])
+    # the recorded witness of F-C04-6
+    out.append(["resolve", 0, [[b"p", [b"1.0.0", [], [[[[8, b"q"]], b"r", b"2"]]]], [b"r", [b"2.0.0", [], [[[[8, b"q"]], b"p", b"1"]]]]], b"p", b"1.0.0"])
     # deep nesting / long tokens
     out.append(["parsedep", b"a; " + b"(" * 20000 + b"os_name=='x'" + b")" * 20000])
     out.append(["pom", b"<project><properties>" + b"".join(b"<p%d>${p%d}</p%d>" % (i, i + 1, i) for i in range(3000)) + b"<p3000>${p0}</p3000></properties><version>${p0}</version></project>", b"", b""])
@@ -238,6 +273,10 @@ def run(ctx):
         ctx.nontriv(sx(c))
         if cls in ("panic", "hang", "crash"):
             what = {"panic": "panics", "hang": "does not return within the watchdog limit", "crash": "crashes the process (stack overflow or fatal error)"}[cls]
+            # F-C04-6 (open): npm.Resolve does not terminate on some alias cycles (p -> q=npm:r, r -> q=npm:p)
+            if cls == "hang" and c[0] == "resolve" and c[1] == 0 and any(t and t[0][0] == 8 for p in c[2] for ve in p[1:] for (t, _, _) in ve[2]):
+                ctx.known_hits["F-C04-6"] = ctx.known_hits.get("F-C04-6", 0) + 1
+                continue
             if (key, cls) not in seen or len(ctx.violations) < 30:
                 ctx.violation("%s %s" % (key, what), sx(c)[:4000], observed=cls, required="a value or an error")
             seen.add((key, cls))
